@@ -1,7 +1,7 @@
 ''' C15 — TCPCL enforces its TLS and peer-authentication policy (structural clauses). '''
 import ast
 import itertools
-from ..core import AnalysisError, walk_local, calls_in, call_name, dotted, src, self_attr, enclosing
+from ..core import AnalysisError, walk_local, calls_in, call_name, dotted, src, self_attr, enclosing, kwarg
 from ..lib import (FuncView, pm, method_calls, one, at_least, stores_to_self_attr, const_str, path_text)
 from ..cfg import handler_names
 from .. import norm
@@ -14,6 +14,7 @@ def check(chk, thorough=False):
     chk.run('C15.a', 'R-FLOW', 'TLS is attempted exactly when both contact headers offer it; the local offer follows the configuration', lambda ob: c15a(tree, ob), floor=3)
     chk.run('C15.b', 'R-ORDER', 'the require-TLS policy is checked (tri-state) before and after the handshake on every path to SESS_INIT / the end of contact negotiation; every failure closes', lambda ob: c15b(tree, ob), floor=5)
     chk.run('C15.c', 'R-TABLE', 'the authentication decision equals the policy table over all identifier outcomes and requirement settings', lambda ob: c15c(tree, ob), floor=180)
+    chk.run('C15.e', 'R-TRUTH', 'the TLS policy enforced is the configured one: the configuration loader hands every setting on as read (an explicit false stays false)', lambda ob: __import__('sa.props.common', fromlist=['config_verbatim']).config_verbatim(tree, ob, 'tcpcl/config.py'), floor=2)
     chk.run('C15.d', 'R-ORDER', 'authentication runs before the session is declared established; a failure terminates with the raised reason', lambda ob: c15d(tree, ob), floor=3)
 
 
@@ -233,6 +234,57 @@ def c15c(tree, ob):
             ob.site(SESS, n, 'IP reference identifier = address of the peer socket')
         else:
             ob.violate(SESS, fv.qual, src(n) + '  (= ' + v[:60] + ')', 'the IPADDR-ID reference is not the address of the peer: certificate IP names are matched against the wrong address', n)
+    # the DNS-ID reference is the name the user asked to connect to: it travels from the connect request (toaddr) through
+    # Connection._peer_name; taken from the socket instead it is always an address, never a name, and a certificate whose DNS
+    # names contradict the requested host is accepted
+    dns = [(st, v) for (st, v) in norm.local_assigns(fv.func, 'peer_dnsid') if not (isinstance(v, ast.Constant) and v.value is None)]
+    if len(dns) != 1 or src(dns[0][1]) != 'self._peer_name':
+        ob.violate(SESS, fv.qual, 'peer_dnsid = ' + (src(dns[0][1]) if dns else '?'), 'the DNS-ID reference is not the name the connection was requested for', dns[0][0] if dns else fv.func)
+    else:
+        fi = FuncView(tree, SESS, 'Messenger.__init__')
+        inits = [c for c in calls_in(fi.func) if pm('Connection.__init__(self, $s, $p, $n)', c) is not None]
+        ci = one(inits, 'Connection.__init__ call in Messenger.__init__', ob)
+        arg = ci.args[3]
+        vals = set()
+        if isinstance(arg, ast.Name):
+            for (dst, dval) in fi.reaching_defs(arg.id, ci):
+                vals.add(src(dval) if dval is not None and isinstance(dval, ast.AST) else '?')
+        elif isinstance(arg, ast.IfExp):
+            vals = {src(arg.body), src(arg.orelse)}
+        else:
+            vals = {src(arg)}
+        conn = tree.klass(SESS, 'Connection')
+        stores = [(f, st, k, v) for (f, st, k, v) in stores_to_self_attr(conn, '_peer_name')]
+        kept = len(stores) == 1 and stores[0][0].name == '__init__' and src(stores[0][3]) == 'peer_name'
+        if vals == {'fromaddr[0]', 'toaddr[0]'} and kept:
+            ob.site(SESS, ci, 'DNS-ID reference = the host the connect request named (toaddr), kept unchanged in _peer_name')
+        else:
+            ob.violate(SESS, fi.qual, 'peer name = ' + ' / '.join(sorted(vals)), 'the name of the peer is not taken from the connect request (toaddr): asked of the socket it is always an address, the DNS-ID '
+                       'reference is then never set, and a certificate with contradicting DNS names is accepted', ci)
+    # the node ID that is matched against the certificate is the one the peer announced, octet for octet: the text decoding
+    # of the field is strict (a lenient one turns "dtn://ser\xffver/" into the certified "dtn://server/")
+    fcls = tree.klass('tcpcl/formats.py', 'StrLenFieldUtf8')
+    for m in [x for x in fcls.body if isinstance(x, ast.FunctionDef) and x.name in ('i2h', 'h2i', 'm2i', 'i2m')]:
+        for c in calls_in(m):
+            if isinstance(c.func, ast.Attribute) and c.func.attr in ('decode', 'encode'):
+                err = kwarg(c, 'errors') if any(k.arg == 'errors' for k in c.keywords) else (c.args[1] if len(c.args) > 1 else None)
+                if err is None or (isinstance(err, ast.Constant) and err.value == 'strict'):
+                    ob.site('tcpcl/formats.py', c, 'StrLenFieldUtf8.{}: strict text coding'.format(m.name))
+                else:
+                    ob.violate('tcpcl/formats.py', 'StrLenFieldUtf8.' + m.name, src(c), 'the node ID text is decoded leniently: octets that are not UTF-8 vanish (or are replaced), so an announced node ID that '
+                               'differs from the certified one compares equal to it', c)
+    # the policy code runs: every name it takes from the ssl module exists in the interpreter the project is installed for
+    # (ssl.match_hostname is gone from python 3.12: reaching such a call raises AttributeError out of the receive callback
+    # instead of ending in "session established" or SESS_TERM contact-failure)
+    import importlib, sys as _sys
+    sslmod = importlib.import_module('ssl')
+    for (r_, q_, f_) in tree.all_functions([SESS]):
+        for a in [x for x in ast.walk(f_) if isinstance(x, ast.Attribute) and isinstance(x.value, ast.Name) and x.value.id == 'ssl']:
+            if hasattr(sslmod, a.attr):
+                continue
+            ob.violate(SESS, q_, 'ssl.' + a.attr, 'ssl.{} does not exist in python {}.{} (the interpreter of the project environment): the statement raises AttributeError when it is reached, '
+                       'inside the handling of SESS_INIT under TLS'.format(a.attr, _sys.version_info[0], _sys.version_info[1]), a)
+    ob.site(SESS, fv.func, 'every ssl.<name> used by the session code exists in python {}.{}'.format(_sys.version_info[0], _sys.version_info[1]))
     # (the policy decision, not the conversion of a decoding error inside an except arm)
     raises = [r for r in walk_local(fv.func) if isinstance(r, ast.Raise) and r.exc is not None and 'TerminateError' in src(r.exc) and enclosing(r, (ast.ExceptHandler,)) is None]
     r = one(raises, 'TerminateError raise in merge_session_params', ob)
